@@ -467,7 +467,7 @@ func analyseCreateScope(w *World, fi *FuncInfo) *createScopeFacts {
 							cs.withCancl = x
 							cs.ctxObj, cs.cancelObj = objOf(info, x.Lhs[0]), objOf(info, x.Lhs[1])
 						}
-						if cal.Name() == "newScope" && len(x.Lhs) == 2 {
+						if w.IsFn(cal, w.Godi, "newScope") && len(x.Lhs) == 2 {
 							cs.scopeObj = objOf(info, x.Lhs[0])
 						}
 					}
@@ -652,7 +652,7 @@ func ruleCancelOwnership(w *World, r *Report, rule string) {
 				}
 				if as, ok := n.(*ast.AssignStmt); ok && len(as.Rhs) == 1 {
 					if c, ok := unparen(as.Rhs[0]).(*ast.CallExpr); ok {
-						if cal := callee(info, c); cal != nil && cal.Name() == "newScope" && len(as.Lhs) == 2 {
+						if cal := callee(info, c); w.IsFn(cal, w.Godi, "newScope") && len(as.Lhs) == 2 {
 							errObj = objOf(info, as.Lhs[1])
 							gen = append(gen, "created?")
 							// cancel handed to the scope?
@@ -827,7 +827,7 @@ func helperMayClose(w *World, info *types.Info, call *ast.CallExpr, obj types.Ob
 		return false
 	}
 	t := w.Decls[cal]
-	if t == nil || cal.Name() == "Close" || cal.Name() == "newScope" {
+	if t == nil || cal.Name() == "Close" || w.IsFn(cal, w.Godi, "newScope") {
 		return false
 	}
 	var params []*ast.Ident
